@@ -21,3 +21,4 @@ import ZckModel.Pred.Write
 import ZckModel.Tools
 import ZckModel.Copy
 import ZckModel.Pred.Copy
+import ZckModel.IoFault
